@@ -1753,7 +1753,7 @@ func (g *pgen) extraStmt(o *pout, depth int) {
 		}
 		return g.nonConstInt("int", 1)
 	}
-	switch g.n(0, 17, "exk") {
+	switch g.n(0, 25, "exk") {
 	case 0:
 		// if with init statement and comma-ok
 		g.cat("if")
@@ -2001,6 +2001,134 @@ func (g *pgen) extraStmt(o *pout, depth int) {
 		o.line("}{X: %s[\"a\"].A}", m)
 		o.line("%s.Y = append(%s.Y, \"q\")", an, an)
 		o.line("emit(%q + itoa(int64(%s.X)) + itoa(int64(len(%s.Y))))", "anon=", an, an)
+	case 18:
+		// closures capturing variables of every block kind: if-init, switch-init, type-switch
+		// binding, range key/value, parameters
+		g.cat("closure")
+		g.cat("type-switch")
+		fs := g.fresh()
+		o.line("var %s []func() int", fs)
+		a, b, c, d := g.fresh(), g.fresh(), g.fresh(), g.fresh()
+		o.line("if %s := %s; %s %% 2 == 0 {", a, g.nonConstInt("int", 1), a)
+		o.line("\t%s = append(%s, func() int { %s++; return %s })", fs, fs, a, a)
+		o.line("} else {")
+		o.line("\t%s = append(%s, func() int { %s--; return %s })", fs, fs, a, a)
+		o.line("}")
+		o.line("switch %s := %s; {", b, intv("exb"))
+		o.line("case %s > 0:", b)
+		o.line("\t%s = append(%s, func() int { %s *= 2; return %s })", fs, fs, b, b)
+		o.line("default:")
+		o.line("\t%s = append(%s, func() int { return %s - 1 })", fs, fs, b)
+		o.line("}")
+		o.line("var %s interface{} = %s", c, intv("exc"))
+		o.line("switch %s := %s.(type) {", d, c)
+		o.line("case int:")
+		o.line("\t%s = append(%s, func() int { %s += 3; return %s })", fs, fs, d, d)
+		o.line("case string:")
+		o.line("\t%s = append(%s, func() int { return len(%s) })", fs, fs, d)
+		o.line("}")
+		o.line("func(p int) {")
+		o.line("\t%s = append(%s, func() int { p += 100; return p })", fs, fs)
+		o.line("\tp = 7")
+		o.line("}(%s)", intv("exp"))
+		f := g.fresh()
+		o.line("for _, %s := range %s {", f, fs)
+		o.line("\temit(%q + itoa(int64(%s())) + \" \" + itoa(int64(%s())))", "captured=", f, f)
+		o.line("}")
+	case 19:
+		// short variable declarations that redeclare some of their variables
+		g.cat("redeclare")
+		g.nfun++
+		n := id + "_" + strconv.Itoa(g.nfun)
+		fmt.Fprintf(&g.decl, "\nfunc pair%[1]s(a int) (int, string) { return a + 1, itoa(int64(a)) }\n", n)
+		x, e1, y := g.fresh(), g.fresh(), g.fresh()
+		o.line("%s, %s := pair%s(%s)", x, e1, n, intv("exx"))
+		o.line("%s, %s := pair%s(%s)", y, e1, n, x)
+		o.line("emit(%q + itoa(int64(%s)) + itoa(int64(%s)) + %s)", "redecl=", x, y, e1)
+		o.line("if %s > 0 {", y)
+		o.line("\t%s, %s := pair%s(%s)", x, e1, n, y)
+		o.line("\temit(%q + itoa(int64(%s)) + %s)", "inner=", x, e1)
+		o.line("}")
+		o.line("emit(%q + itoa(int64(%s)) + %s)", "outer=", x, e1)
+	case 20:
+		// scopes of if / else-if init statements
+		g.cat("if")
+		g.cat("shadowing")
+		a, b := g.fresh(), g.fresh()
+		o.line("if %s := %s; %s > 100 {", a, intv("exa"), a)
+		o.line("\temit(\"big\")")
+		o.line("} else if %s := %s %% 7; %s < 0 {", b, a, b)
+		o.line("\temit(\"negmod \" + itoa(int64(%s)))", b)
+		o.line("} else if %s := %s + 1; %s > 0 {", a, b, a)
+		o.line("\temit(\"shadowed \" + itoa(int64(%s)) + \" \" + itoa(int64(%s)))", a, b)
+		o.line("} else {")
+		o.line("\temit(\"else \" + itoa(int64(%s+%s)))", a, b)
+		o.line("}")
+	case 21:
+		// closure factories: every call owns its variable
+		g.cat("closure")
+		g.nfun++
+		n := id + "_" + strconv.Itoa(g.nfun)
+		fmt.Fprintf(&g.decl, "\nfunc mk%[1]s(start int) (func() int, func()) {\n\tc := start\n\treturn func() int { c++; return c }, func() { c = 0 }\n}\n", n)
+		i1, r1, i2, r2 := g.fresh(), g.fresh(), g.fresh(), g.fresh()
+		o.line("%s, %s := mk%s(%s)", i1, r1, n, intv("exs"))
+		o.line("%s, %s := mk%s(10)", i2, r2, n)
+		o.line("%s()", i1)
+		o.line("%s()", i2)
+		o.line("%s()", r1)
+		o.line("_ = %s", r2)
+		o.line("emit(%q + itoa(int64(%s())) + \" \" + itoa(int64(%s())))", "factory=", i1, i2)
+	case 22:
+		// arrays and structs are copied when passed; slices and pointers are not
+		g.cat("call")
+		g.cat("array")
+		g.needStruct()
+		g.nfun++
+		n := id + "_" + strconv.Itoa(g.nfun)
+		fmt.Fprintf(&g.decl, "\nfunc mut%[1]s(a [3]int, s []int, st S%[2]s, p *S%[2]s) int {\n\ta[0], s[0], st.A, p.A = 9, 9, 9, 9\n\treturn a[0] + s[0] + st.A + p.A\n}\n", n, id)
+		a, sl, st, pt := g.fresh(), g.fresh(), g.fresh(), g.fresh()
+		o.line("%s, %s, %s, %s := [3]int{1}, []int{1}, S%s{A: 1}, &S%s{A: 1}", a, sl, st, pt, id, id)
+		o.line("emit(%q + itoa(int64(mut%s(%s, %s, %s, %s))) + ints(%s[:]) + ints(%s) + itoa(int64(%s.A)) + itoa(int64(%s.A)))", "passing=", n, a, sl, st, pt, a, sl, st, pt)
+	case 23:
+		// a copied struct shares the backing array of its slice field
+		g.cat("struct")
+		g.cat("slice")
+		a, b := g.fresh(), g.fresh()
+		o.line("%s := struct {", a)
+		o.line("\tL []int")
+		o.line("\tM map[string]int")
+		o.line("\tA [2]int")
+		o.line("}{L: make([]int, 1, 4), M: map[string]int{}}")
+		o.line("%s := %s", b, a)
+		o.line("%s.L[0], %s.M[\"k\"], %s.A[0] = 5, 6, 7", b, b, b)
+		o.line("%s.L = append(%s.L, 8)", b, b)
+		o.line("%s.L = append(%s.L, 9)", a, a)
+		o.line("emit(%q + ints(%s.L) + ints(%s.L) + mapSI(%s.M) + ints(%s.A[:]) + ints(%s.A[:]))", "sharing=", a, b, a, a, b)
+	case 24:
+		// interface embedding, pointer embedding, method promotion through a pointer
+		g.cat("embedding")
+		g.cat("interface")
+		g.needStruct()
+		g.nfun++
+		n := id + "_" + strconv.Itoa(g.nfun)
+		fmt.Fprintf(&g.decl, "\ntype N%[1]s interface {\n\tI%[2]s\n\tName() string\n}\n\ntype P%[1]s struct {\n\t*S%[2]s\n\tTag string\n}\n\nfunc (p P%[1]s) Name() string { return p.Tag + p.B }\n", n, id)
+		base, w, iv := g.fresh(), g.fresh(), g.fresh()
+		o.line("%s := S%s{A: %s, B: \"b\"}", base, id, intv("exe"))
+		o.line("%s := P%s{S%s: &%s, Tag: \"t\"}", w, n, id, base)
+		o.line("%s.Inc(2)", w)
+		o.line("var %s N%s = %s", iv, n, w)
+		o.line("%s.A++", base)
+		o.line("emit(%q + itoa(int64(%s.Sum())) + %s.Name() + itoa(int64(%s.A)))", "embedptr=", iv, iv, w)
+	case 25:
+		// building strings in loops; byte/rune arithmetic
+		g.cat("string")
+		g.cat("for")
+		sv, i := g.fresh(), g.fresh()
+		o.line("%s := \"\"", sv)
+		o.line("for %s := 0; %s < %d; %s++ {", i, i, g.n(1, 6, "sn"), i)
+		o.line("\t%s += string(rune('a'+%s)) + string(byte('0'+%s%%10))", sv, i, i)
+		o.line("}")
+		o.line("emit(%q + %s + itoa(int64(len(%s))) + itoa(int64(%s[len(%s)-1]-'0')))", "built=", sv, sv, sv, sv)
 	default:
 		// integer <-> string/byte/rune conversions and comparisons of named string types
 		g.cat("conversion")
